@@ -32,7 +32,7 @@ structure FnOK (G : GCtx) (g : String) (fd : FnDef) (I : FnInfo) (stmts : List S
   vars : ∀ m ∈ codeVars (cgFn G.mod I.φ fd stmts (some e) I.scopes0 I.vm0 I.lm0), I.N m
   slot : ∀ m, I.N m → I.σ m < (fnParts G.mod I.φ fd stmts (some e) I.scopes0 I.vm0 I.lm0).envE.nv
   frame : (fnParts G.mod I.φ fd stmts (some e) I.scopes0 I.vm0 I.lm0).envE.nv ≤ G.F
-  okS : Frag.okGSs false true stmts = true
+  okS : Frag.okFSs G.fr false true stmts = true
   okE : Frag.okGE e = true
   wsS : Frag.wsGSs G.mod g I.φ [] stmts (fnParts G.mod I.φ fd stmts (some e) I.scopes0 I.vm0 I.lm0).envB = true
   wsE : Frag.wsGE (fnParts G.mod I.φ fd stmts (some e) I.scopes0 I.vm0 I.lm0).envS.scopes I.φ e = true
@@ -45,15 +45,20 @@ structure FnOK (G : GCtx) (g : String) (fd : FnDef) (I : FnInfo) (stmts : List S
 
 /-- Every callable function is in the fragment. -/
 def ProgOK (G : GCtx) : Prop :=
-  ∀ g fd, G.K g → findFn G.cfg.prog G.mod g = some fd → ∃ I stmts e, FnOK G g fd I stmts e
+  ∀ g fd, G.K g → findFn G.cfg.prog G.mod g = some fd →
+    ∃ I stmts e, FnOK G g fd I stmts e ∧ (G.fr = true → ∀ y ∈ I.T, ("$iter_" ++ y) ∉ I.T)
 
-structure GCtx.OK (G : GCtx) : Prop where
+structure GCtx.OK' (G : GCtx) : Prop where
   prog : ProgOK G
   room : G.B + ((G.cfg.callLimit : Int) + 2) * (G.F : Int) < (G.lim.memory : Int)
   base : 0 ≤ G.B
   println : G.s.globals.lookup "println" = none
   noPrintFn : resolveFn G.cfg.prog G.mod "println" = none
   noThrowFn : resolveFn G.cfg.prog G.mod "throw" = none
+
+/-- … and there is no `for` loop anywhere: the VM's iterator table is never touched. -/
+structure GCtx.OK (G : GCtx) : Prop extends GCtx.OK' G where
+  nofor : G.fr = false
 
 /-! ## Pure expressions inside the general fragment -/
 
@@ -116,26 +121,27 @@ theorem varsGE_pure (e : Expr) (h : Frag.pureE e = true) : Frag.varsGE e = Frag.
 
 /-- The pure theorem `exec_pure`, read in the general setting. -/
 theorem simGE_pure (G : GCtx) (A : Act) (hA : A.OK G) (fuel : Nat) (e : Expr) (st : St) (ip : Nat)
-    (stk : List SVal) (mem : List (Int × Val)) (lm : LM) (scopes : CScopes) (vm : List (String × Nat))
+    (stk : List SVal) (mem : Mem) (lm : LM) (scopes : CScopes) (vm : List (String × Nat))
     (hp : Frag.pureE e = true) (hres : Frag.resolved scopes (Frag.varsE e) = true)
     (hT : ∀ x ∈ Frag.varsE e, x ∈ A.T)
     (hpl : Placed A.lab A.σ A.c ip (cpE G.mod (ρS scopes) e lm).1)
     (hrel : StRel G.mod A.T A.N A.σ G.lim A.mp scopes vm st.scopes mem) (hsp : SpecOK G A.mp st) :
     SimGE G A ip (nI (cpE G.mod (ρS scopes) e lm).1) stk mem st (evalExpr G.cfg fuel e st) := by
   have henv := hrel.scopes.envRel A.T A.σ G.lim A.mp (Frag.varsE e) hT hres
-  have h := exec_pure G.cfg G.code G.lim G.mod (ρS scopes) A.σ A.lab (baseOf G.s A.fn A.rest A.mp st.world)
+  have h := fun it => exec_pure G.cfg G.code G.lim G.mod (ρS scopes) A.σ A.lab
+    (baseOf (withIt G.s it) A.fn A.rest A.mp st.world)
     ⟨A.fn, 0⟩ A.rest A.c rfl hA.code fuel e st ip stk mem lm hp hpl henv rfl
   rcases hev : evalExpr G.cfg fuel e st with ⟨r, st'⟩
-  rw [hev] at h
+  simp only [hev] at h
   cases r with
   | ok v =>
-    obtain ⟨rfl, hrun⟩ := h
-    exact ⟨rfl, mem, Runs.of_runsTo hrun, MemLe.refl _ _⟩
+    obtain ⟨rfl, _⟩ := h ⟨[], 0⟩
+    exact ⟨rfl, mem, Runs.of_runsTo (fun it => (h it).2), MemLe.refl _ _ _⟩
   | error c =>
-    cases c <;> first | trivial | exact h.elim | skip
-    obtain ⟨rfl, hrun⟩ := h
+    cases c <;> first | trivial | exact (h ⟨[], 0⟩).elim | skip
+    obtain ⟨rfl, _⟩ := h ⟨[], 0⟩
     intro _
-    exact RunsF.of_runsFatal hrun
+    exact RunsF.of_runsFatal (fun it => (h it).2)
 
 /-! ## Atoms -/
 
@@ -244,13 +250,13 @@ theorem bound_of_resolved {T σ lim mp mem} {scopes : CScopes} {ss : SScopes}
 
 /-- On the VM an atom pushes its value, whatever the output so far, touching nothing. -/
 theorem atom_runs (G : GCtx) (A : Act) (hA : A.OK G) (e : Expr) (st : St) (ip : Nat)
-    (stk : List SVal) (mem : List (Int × Val)) (lm : LM) (scopes : CScopes) (vm : List (String × Nat))
+    (stk : List SVal) (mem : Mem) (lm : LM) (scopes : CScopes) (vm : List (String × Nat))
     (ha : Frag.atomE e = true) (hres : Frag.resolved scopes (Frag.varsE e) = true)
     (hT : ∀ x ∈ Frag.varsE e, x ∈ A.T)
     (hpl : Placed A.lab A.σ A.c ip (cpE G.mod (ρS scopes) e lm).1)
     (hrel : StRel G.mod A.T A.N A.σ G.lim A.mp scopes vm st.scopes mem) :
     ∃ v, atomVal st.scopes e = some v ∧
-      ∀ out, Runs G.code G.lim G.s A.fn A.rest A.mp ip stk mem out
+      ∀ out, Runs G.fr G.code G.lim G.s A.fn A.rest A.mp ip stk mem out
         (ip + nI (cpE G.mod (ρS scopes) e lm).1) (⟨v, none⟩ :: stk) mem out := by
   have hb := bound_of_resolved hrel.scopes (Frag.varsE e) hT hres
   obtain ⟨v, hv, _, _⟩ := atom_eval G.cfg _ e st (Nat.le_refl _) ha hb
@@ -262,15 +268,16 @@ theorem atom_runs (G : GCtx) (A : Act) (hA : A.OK G) (e : Expr) (st : St) (ip : 
     rw [hv] at this; exact (Option.some.inj this).symm
   subst hvv
   have henv := hrel.scopes.envRel A.T A.σ G.lim A.mp (Frag.varsE e) hT hres
-  have h := exec_pure G.cfg G.code G.lim G.mod (ρS scopes) A.σ A.lab (baseOf G.s A.fn A.rest A.mp out)
+  have h := fun it => exec_pure G.cfg G.code G.lim G.mod (ρS scopes) A.σ A.lab
+    (baseOf (withIt G.s it) A.fn A.rest A.mp out)
     ⟨A.fn, 0⟩ A.rest A.c rfl hA.code (Frag.depthE e) e { st with heap := out.heap } ip stk mem lm (atom_pure e ha)
     hpl henv rfl
-  rw [h2 _ (Nat.le_refl _)] at h
-  exact Runs.of_runsTo h.2
+  simp only [h2 _ (Nat.le_refl _)] at h
+  exact Runs.of_runsTo (fun it => (h it).2)
 
 /-- `StRel` only looks at cells up to `mp`. -/
 theorem StRel.memLe {mod T N σ lim mp cs vm ss mem mem'} (h : StRel mod T N σ lim mp cs vm ss mem)
-    (hm : MemLe mp mem mem') : StRel mod T N σ lim mp cs vm ss mem' :=
+    (hm : CellsLe mp mem mem') : StRel mod T N σ lim mp cs vm ss mem' :=
   ⟨ScopesRel.mem_congr T σ lim mp (fun m _ => hm _ (by omega)) h.scopes, h.nodup, h.inN, h.named⟩
 
 /-! ## Argument lists -/
@@ -284,7 +291,7 @@ def varsArgs : List (String × Expr) → List String
 
 /-- A list of atoms: the specification yields their values (or `timeout`) without touching the
 state; the VM pushes them — last argument first, so that the first ends up on top. -/
-theorem atoms_run (G : GCtx) (A : Act) (hA : A.OK G) (st : St) (mem : List (Int × Val)) (scopes : CScopes)
+theorem atoms_run (G : GCtx) (A : Act) (hA : A.OK G) (st : St) (mem : Mem) (scopes : CScopes)
     (vm : List (String × Nat))
     (hrel : StRel G.mod A.T A.N A.σ G.lim A.mp scopes vm st.scopes mem) :
     ∀ (args : List (String × Expr)) (ip : Nat) (stk : List SVal) (lm : LM),
@@ -294,7 +301,7 @@ theorem atoms_run (G : GCtx) (A : Act) (hA : A.OK G) (st : St) (mem : List (Int 
         (∀ st2 : St, st2.scopes = st.scopes → ∀ fuel,
           evalList G.cfg fuel (args.map (·.2)) st2 = (.error .timeout, st2) ∨
           evalList G.cfg fuel (args.map (·.2)) st2 = (.ok vals, st2)) ∧
-        ∀ out, Runs G.code G.lim G.s A.fn A.rest A.mp ip stk mem out
+        ∀ out, Runs G.fr G.code G.lim G.s A.fn A.rest A.mp ip stk mem out
           (ip + nI (cgArgs G.mod (ρS scopes) A.φ args lm).1) (vals.map (⟨·, none⟩) ++ stk) mem out := by
   intro args
   induction args with
@@ -342,24 +349,24 @@ theorem atoms_run (G : GCtx) (A : Act) (hA : A.OK G) (st : St) (mem : List (Int 
 
 /-! ## The statements proved by induction on the specification's fuel -/
 
-def SimArgs (G : GCtx) (A : Act) (ip n : Nat) (stk : List SVal) (mem : List (Int × Val)) (st : St)
+def SimArgs (G : GCtx) (A : Act) (ip n : Nat) (stk : List SVal) (mem : Mem) (st : St)
     (r : Except Ctl (List Val) × St) : Prop :=
   match r with
   | (.ok vals, st') =>
     st' = { st with out := st'.out, heap := st'.heap } ∧
-      ∃ mem', Runs G.code G.lim G.s A.fn A.rest A.mp ip stk mem st.world (ip + n)
-          (vals.map (⟨·, none⟩) ++ stk) mem' st'.world ∧ MemLe A.mp mem mem'
+      ∃ mem', Runs G.fr G.code G.lim G.s A.fn A.rest A.mp ip stk mem st.world (ip + n)
+          (vals.map (⟨·, none⟩) ++ stk) mem' st'.world ∧ MemLe G.fr A.mp mem mem'
   | (.error (.fatal kd m sp), st') =>
     kd ≠ "StackOverFlow" → RunsF G.code G.lim G.s A.fn A.rest A.mp ip stk mem st.world kd m sp st'.world
   | (.error (.throw msg sp), st') =>
     st' = { st with out := st'.out, heap := st'.heap } ∧
-      ∃ mem', RunsT G A.fn A.rest A.mp ip stk mem st.world msg sp mem' st'.world ∧ MemLe A.mp mem mem'
+      ∃ mem', RunsT G A.fn A.rest A.mp ip stk mem st.world msg sp mem' st'.world ∧ MemLe G.fr A.mp mem mem'
   | (.error (.unsupported _), _) => True
   | (.error .timeout, _) => True
   | _ => False
 
 def PE (G : GCtx) (fuel : Nat) : Prop :=
-  ∀ (A : Act), A.OK G → ∀ (e : Expr) (st : St) (ip : Nat) (stk : List SVal) (mem : List (Int × Val)) (lm : LM)
+  ∀ (A : Act), A.OK G → ∀ (e : Expr) (st : St) (ip : Nat) (stk : List SVal) (mem : Mem) (lm : LM)
     (scopes : CScopes) (vm : List (String × Nat)),
     Frag.okGE e = true → Frag.wsGE scopes A.φ e = true → (∀ x ∈ Frag.namesGE e, x ∈ A.T) →
     Placed A.lab A.σ A.c ip (cgE G.mod (ρS scopes) A.φ e lm).1 →
@@ -367,7 +374,7 @@ def PE (G : GCtx) (fuel : Nat) : Prop :=
     SimGE G A ip (nI (cgE G.mod (ρS scopes) A.φ e lm).1) stk mem st (evalExpr G.cfg fuel e st)
 
 def PGB (G : GCtx) (fuel : Nat) : Prop :=
-  ∀ (A : Act), A.OK G → ∀ (b : Block) (st : St) (ip : Nat) (stk : List SVal) (mem : List (Int × Val)) (lm : LM)
+  ∀ (A : Act), A.OK G → ∀ (b : Block) (st : St) (ip : Nat) (stk : List SVal) (mem : Mem) (lm : LM)
     (scopes : CScopes) (vm : List (String × Nat)),
     Frag.okGB b = true → Frag.resolved scopes (Frag.varsGB b) = true → Frag.callsOK scopes A.φ (Frag.callsGB b) = true →
     (∀ x ∈ Frag.varsGB b ++ Frag.callsGB b, x ∈ A.T) →
@@ -377,7 +384,7 @@ def PGB (G : GCtx) (fuel : Nat) : Prop :=
 
 def PArgs (G : GCtx) (fuel : Nat) : Prop :=
   ∀ (A : Act), A.OK G → ∀ (args : List (String × Expr)) (st : St) (ip : Nat) (stk : List SVal)
-    (mem : List (Int × Val)) (lm : LM) (scopes : CScopes) (vm : List (String × Nat)),
+    (mem : Mem) (lm : LM) (scopes : CScopes) (vm : List (String × Nat)),
     Frag.okGArgs args = true → Frag.oneNonAtom args = true → Frag.wsGArgs scopes A.φ args = true →
     (∀ x ∈ Frag.namesGArgs args, x ∈ A.T) →
     Placed A.lab A.σ A.c ip (cgArgs G.mod (ρS scopes) A.φ args lm).1 →
@@ -388,8 +395,9 @@ def PArgs (G : GCtx) (fuel : Nat) : Prop :=
 def PCall (G : GCtx) (fuel : Nat) : Prop :=
   ∀ (g : String) (fd : FnDef) (I : FnInfo) (stmts : List Stmt) (e : Expr), G.K g →
     findFn G.cfg.prog G.mod g = some fd → FnOK G g fd I stmts e →
+    (G.fr = true → ∀ y ∈ I.T, ("$iter_" ++ y) ∉ I.T) →
     ∀ (sp : Span) (vals : List Val) (st : St) (frames : List Frame) (mp : Int) (stk : List SVal)
-      (mem : List (Int × Val)), SpecOK G mp st → 0 ≤ mp →
+      (mem : Mem), SpecOK G mp st → 0 ≤ mp →
     SimCall G (mangleFnName G.mod g) frames mp vals stk mem st
       (callBody G.cfg fuel sp G.mod fd.params fd.body vals st)
 
@@ -414,8 +422,8 @@ theorem frame_trans {st0 st st1 : St} (h0 : st = { st0 with out := st.out, heap 
 /-- An error of a later part, after a first part that completed (leaving `ys` on the stack). -/
 theorem SimGE.error_after {G : GCtx} {A : Act} {ip n stk mem st c st1 ip1 mem1} {st0 : St} (n' : Nat)
     (ys : List SVal)
-    (h0 : Runs G.code G.lim G.s A.fn A.rest A.mp ip stk mem st0.world ip1 (ys ++ stk) mem1 st.world)
-    (hfr : st = { st0 with out := st.out, heap := st.heap }) (hml : MemLe A.mp mem mem1)
+    (h0 : Runs G.fr G.code G.lim G.s A.fn A.rest A.mp ip stk mem st0.world ip1 (ys ++ stk) mem1 st.world)
+    (hfr : st = { st0 with out := st.out, heap := st.heap }) (hml : MemLe G.fr A.mp mem mem1)
     (h : SimGE G A ip1 n (ys ++ stk) mem1 st (.error c, st1)) : SimGE G A ip n' stk mem st0 (.error c, st1) := by
   cases c <;> first | trivial | exact h.elim | exact fun hk => h0.fatal (h hk) | skip
   obtain ⟨hfr1, mem2, hT, hml2⟩ := h
@@ -424,31 +432,31 @@ theorem SimGE.error_after {G : GCtx} {A : Act} {ip n stk mem st c st1 ip1 mem1} 
 /-! ## Entering and leaving a call -/
 
 theorem Runs.call {G : GCtx} {A : Act} (hA : A.OK G) {ipc : Nat} {g : String} {sp : Span}
-    {stk stk' : List SVal} {mem mem' : List (Int × Val)} {out out' : World}
+    {stk stk' : List SVal} {mem mem' : Mem} {out out' : World}
     (hx : A.c[ipc]? = some (.callImm g, sp))
     (h : RunsCall G g (⟨A.fn, ipc + 1⟩ :: A.rest) A.mp stk mem out stk' mem' out') :
-    Runs G.code G.lim G.s A.fn A.rest A.mp ipc stk mem out (ipc + 1) stk' mem' out' := by
+    Runs G.fr G.code G.lim G.s A.fn A.rest A.mp ipc stk mem out (ipc + 1) stk' mem' out' := by
   intro k
   obtain ⟨k', e⟩ := h (k + 1)
   refine ⟨1 + k', ?_⟩
-  rw [execHN_add, execHN_one, exec1H_of_next (mkS_callImm G.code G.lim G.s A.fn ipc A.rest A.mp k stk mem out A.c hA.code g sp hx)]
+  rw [execHN_add, execHN_one, exec1H_of_next (mkSI_callImm G.code G.lim G.s A.fn ipc A.rest A.mp k stk mem out A.c hA.code g sp hx)]
   simp only [e, Nat.add_assoc]
 
 theorem RunsF.call {G : GCtx} {A : Act} (hA : A.OK G) {ipc : Nat} {g : String} {sp : Span}
-    {stk : List SVal} {mem : List (Int × Val)} {out out' : World} {kd msg : String} {fsp : Span}
+    {stk : List SVal} {mem : Mem} {out out' : World} {kd msg : String} {fsp : Span}
     (hx : A.c[ipc]? = some (.callImm g, sp))
     (h : RunsCallF G g (⟨A.fn, ipc + 1⟩ :: A.rest) A.mp stk mem out kd msg fsp out') :
     RunsF G.code G.lim G.s A.fn A.rest A.mp ipc stk mem out kd msg fsp out' := by
   intro k
   obtain ⟨k', s', e, hs⟩ := h (k + 1)
   refine ⟨1 + k', s', ?_, hs⟩
-  rw [execHN_add, execHN_one, exec1H_of_next (mkS_callImm G.code G.lim G.s A.fn ipc A.rest A.mp k stk mem out A.c hA.code g sp hx)]
+  rw [execHN_add, execHN_one, exec1H_of_next (mkSI_callImm G.code G.lim G.s A.fn ipc A.rest A.mp k stk mem out A.c hA.code g sp hx)]
   simp only [e]
 
 /-- A call whose callee ends in an uncaught exception, after the arguments `ys` were pushed. -/
 theorem RunsT.of_call {G : GCtx} {A : Act} (hA : A.OK G) {ip ipc : Nat} {g : String} {sp : Span}
-    {ys stk : List SVal} {mem mem1 mem' : List (Int × Val)} {out out1 out' : World} {msg : String} {tsp : Span}
-    (h1 : Runs G.code G.lim G.s A.fn A.rest A.mp ip stk mem out ipc (ys ++ stk) mem1 out1)
+    {ys stk : List SVal} {mem mem1 mem' : Mem} {out out1 out' : World} {msg : String} {tsp : Span}
+    (h1 : Runs G.fr G.code G.lim G.s A.fn A.rest A.mp ip stk mem out ipc (ys ++ stk) mem1 out1)
     (hx : A.c[ipc]? = some (.callImm g, sp))
     (h : RunsCallT G g (⟨A.fn, ipc + 1⟩ :: A.rest) A.mp (ys ++ stk) stk mem1 out1 msg tsp mem' out') :
     RunsT G A.fn A.rest A.mp ip stk mem out msg tsp mem' out' := by
@@ -458,7 +466,7 @@ theorem RunsT.of_call {G : GCtx} {A : Act} (hA : A.OK G) {ip ipc : Nat} {g : Str
   refine ⟨k1 + (1 + k2), s1, frames', ipc + 1, mp', xs, ?_, ?_⟩
   · rw [execHN_add, e1]
     simp only []
-    rw [execHN_add, execHN_one, exec1H_of_next (mkS_callImm G.code G.lim G.s A.fn ipc A.rest A.mp (k + k1) (ys ++ stk) mem1
+    rw [execHN_add, execHN_one, exec1H_of_next (mkSI_callImm G.code G.lim G.s A.fn ipc A.rest A.mp (k + k1) (ys ++ stk) mem1
       out1 A.c hA.code g sp hx)]
     exact e2
   · rw [e3]; simp only [Nat.add_assoc]
@@ -487,15 +495,15 @@ theorem FnOK.withH {G : GCtx} {g fd I stmts e} (h : FnOK G g fd I stmts e) (hs :
     tParams := h.tParams, tIdents := h.tIdents, tVars := h.tVars, key := h.key, outer := h.outer
     phi := h.phi }
 
-theorem GCtx.OK.withH {G : GCtx} (h : G.OK) (hs : List Handler) : (G.withH hs).OK :=
+theorem GCtx.OK'.withH {G : GCtx} (h : G.OK') (hs : List Handler) : (G.withH hs).OK' :=
   { prog := fun g fd hK hf => by
-      obtain ⟨I, stmts, e, hFn⟩ := h.prog g fd hK hf
-      exact ⟨I, stmts, e, hFn.withH hs⟩
+      obtain ⟨I, stmts, e, hFn, hgh⟩ := h.prog g fd hK hf
+      exact ⟨I, stmts, e, hFn.withH hs, hgh⟩
     room := h.room, base := h.base, println := h.println, noPrintFn := h.noPrintFn, noThrowFn := h.noThrowFn }
 
 theorem Act.OK.withH {G : GCtx} {A : Act} (h : A.OK G) (hs : List Handler) (rt : Bool) :
     ({ A with rt := rt } : Act).OK (G.withH hs) :=
   { code := h.code, inj := h.inj, slot := h.slot, lo := h.lo, hi := h.hi, phi := h.phi, key := h.key
-    println := h.println, fnName := h.fnName }
+    println := h.println, fnName := h.fnName, ghostN := h.ghostN, ghostT := h.ghostT }
 
 end HmsProofs.Sim
